@@ -509,6 +509,39 @@ func c20R3(p *engine.Prog, r *engine.Report) {
 		return false
 	}
 	lockOrder(p, la, r, "C20-R3", fns, track, nil)
+	// the tracker calls into its holder (Has) under ppMutex and the holders report arrivals
+	// (RemovePull / Add) under their own locks: the acquired-while-holding graph over the tracker's
+	// AND the holders' locks must be acyclic as well
+	{
+		wide := append([]*ssa.Function(nil), fns...)
+		for _, pk := range []string{"core/mempool", "pengings", "core/flip"} {
+			for _, f := range funcsOfPkg(p, pk) {
+				if f.Blocks != nil && !isTestish(p.Pos(f.Pos())) {
+					wide = append(wide, f)
+				}
+			}
+		}
+		trackWide := func(id string) bool {
+			if track(id) {
+				return true
+			}
+			for _, o := range []string{"KeysPool.", "TxPool.", "Votes.", "Proposals.", "Flipper.", "AsyncTxPool.", "AsyncKeysPool."} {
+				if strings.HasPrefix(id, o) {
+					return true
+				}
+			}
+			return false
+		}
+		r2 := engine.NewReport("C20", r.Tier, r.Seed)
+		lockOrder(p, la, r2, "C20-R3w", wide, trackWide, map[string]string{"txMap.mutex": "distinct instances"})
+		bad := ""
+		for _, o := range r2.Obls {
+			if o.Status == engine.Violated && strings.Contains(o.Key+o.Detail, "cycle") && (strings.Contains(o.Detail, "ppMutex") || strings.Contains(o.Detail, "DefaultPushTracker") || strings.Contains(o.Detail, "sortedPendingPushes")) {
+				bad = o.Detail
+			}
+		}
+		r.Check(bad == "", "C20-R3", "tracker and holders|acquired-while-holding graph is acyclic", "", "no cycle through a tracker lock", "lock-order cycle between the tracker and a holder: "+bad+" — the tracker loop (Has under ppMutex) and an arriving item (RemovePull under the holder's lock) wait for each other: no fallback pull is ever issued again")
+	}
 	noBlockingUnderLock(p, la, r, "C20-R3", fns, track, nil)
 	releasedOnAllPaths(p, la, r, "C20-R3", fns, track)
 	r.Floor("C20-R3", 10, "fields, order ×2, blocking, release per locking function")
